@@ -298,6 +298,28 @@ func runC07(c *h.Ctx) {
 				}
 			}
 		}
+		// a request accepted under key P, then the MIRRORED key -P (same x, other sign byte) in the request-key field,
+		// bound as associated data, but signed by the secret of P: signed by a different key than the one it names
+		{
+			signer, _ := stdecdsa.GenerateKey(elliptic.P384(), crand.Reader)
+			pEnc := elliptic.MarshalCompressed(elliptic.P384(), signer.X, signer.Y)
+			if wire, err := craftType3Signed(c, is, client, good, nil, signer); err == nil {
+				if !is.evalCase(c, "request-key:mirrored:honest-first", wire) {
+					c.Violation("the crafted control request (valid in every respect) is refused: harness bug or issuer defect", nil)
+				}
+			}
+			neg := append([]byte{pEnc[0] ^ 1}, pEnc[1:]...)
+			for rep := 0; rep < 2; rep++ {
+				if wire, err := craftType3Signed(c, is, client, good, neg, signer); err == nil {
+					if is.evalCase(c, "request-key:mirrored:negated-key-signed-by-the-original", wire) {
+						c.Violation("a request naming the mirrored key -P but signed by the key of P is served", map[string]any{"request_key": h.Hex(neg)})
+					}
+					if other.evalCase(c, "request-key:mirrored:negated-key-at-another-issuer", wire) {
+						c.Violation("a request for another issuer naming the mirrored key is served", nil)
+					}
+				}
+			}
+		}
 		if wire, err := craftType3(c, is, client, good); err == nil {
 			if !is.evalCase(c, "request-key:crafted-control", wire) {
 				c.Violation("the crafted control request (valid in every respect) is refused: harness bug or issuer defect", nil)
@@ -338,8 +360,16 @@ func craftType3(c *h.Ctx, is *c07Issuer, cl type3.RateLimitedClient, plaintext [
 
 // craftType3Key: as craftType3, with the request-key FIELD replaced by keyEnc (bound as associated data and covered by
 // the signature of a fresh key: the envelope opens, the field itself need not be a point).
-func craftType3Key(c *h.Ctx, is *c07Issuer, _ type3.RateLimitedClient, plaintext []byte, keyOverride []byte) ([]byte, error) {
-	key, _ := stdecdsa.GenerateKey(elliptic.P384(), crand.Reader)
+func craftType3Key(c *h.Ctx, is *c07Issuer, cl type3.RateLimitedClient, plaintext []byte, keyOverride []byte) ([]byte, error) {
+	return craftType3Signed(c, is, cl, plaintext, keyOverride, nil)
+}
+
+// craftType3Signed: as craftType3Key, signed with the given private key (a fresh one when nil).
+func craftType3Signed(c *h.Ctx, is *c07Issuer, _ type3.RateLimitedClient, plaintext []byte, keyOverride []byte, signer *stdecdsa.PrivateKey) ([]byte, error) {
+	key := signer
+	if key == nil {
+		key, _ = stdecdsa.GenerateKey(elliptic.P384(), crand.Reader)
+	}
 	keyEnc := elliptic.MarshalCompressed(elliptic.P384(), key.X, key.Y)
 	if keyOverride != nil {
 		keyEnc = keyOverride
